@@ -531,3 +531,24 @@ package core
 //@   ensures [some-in-transition] result ==> exists i :: 0 <= i && i < len(peers) && peers[i] != nil && (peers[i].Role == 2 || peers[i].Role == 3)
 //@   loop 1 invariant forall i :: {peers[i]} 0 <= i && i <= rangeindex && peers[i] != nil ==> peers[i].Role != 2 && peers[i].Role != 3
 //@   modifies nothing
+
+// Storage writers of the placement-rule manager (JSON encoding + one kv write each; trusted at this level). The ghost
+// counter ruleWriteFailed counts the writes that reported an error, so that "an accepted update means every write
+// succeeded" can be stated for RuleManager.savePatch (C13).
+//@ ghostmap ruleWriteFailed int
+//@ func (*Storage).SaveRule
+//@   assumed
+//@   ensures (result == nil ==> ruleWriteFailed[0] == old(ruleWriteFailed[0])) && (result != nil ==> ruleWriteFailed[0] == old(ruleWriteFailed[0]) + 1)
+//@   modifies ghost kvhas, ghost kvval, ghost ruleWriteFailed
+//@ func (*Storage).DeleteRule
+//@   assumed
+//@   ensures (result == nil ==> ruleWriteFailed[0] == old(ruleWriteFailed[0])) && (result != nil ==> ruleWriteFailed[0] == old(ruleWriteFailed[0]) + 1)
+//@   modifies ghost kvhas, ghost kvval, ghost ruleWriteFailed
+//@ func (*Storage).SaveRuleGroup
+//@   assumed
+//@   ensures (result == nil ==> ruleWriteFailed[0] == old(ruleWriteFailed[0])) && (result != nil ==> ruleWriteFailed[0] == old(ruleWriteFailed[0]) + 1)
+//@   modifies ghost kvhas, ghost kvval, ghost ruleWriteFailed
+//@ func (*Storage).DeleteRuleGroup
+//@   assumed
+//@   ensures (result == nil ==> ruleWriteFailed[0] == old(ruleWriteFailed[0])) && (result != nil ==> ruleWriteFailed[0] == old(ruleWriteFailed[0]) + 1)
+//@   modifies ghost kvhas, ghost kvval, ghost ruleWriteFailed
